@@ -398,6 +398,27 @@ impl Tree {
 	}
 
 	/// (immutable memtables, L0 files) as the stall controller sees them.
+	/// Value-log file ids that entries of the version index point into (empty
+	/// without a version index).
+	pub fn verif_index_vlog_files(&self) -> Result<std::collections::BTreeSet<u32>> {
+		let mut out = std::collections::BTreeSet::new();
+		if let Some(index) = self.core.inner.versioned_index.as_ref() {
+			let guard = index.read();
+			let empty: &[u8] = &[];
+			for entry in guard.range(empty..)? {
+				let (_, value) = entry?;
+				if let Ok(loc) = crate::vlog::ValueLocation::decode(&value) {
+					if loc.is_value_pointer() {
+						if let Ok(ptr) = crate::vlog::ValuePointer::decode(&loc.value) {
+							out.insert(ptr.file_id);
+						}
+					}
+				}
+			}
+		}
+		Ok(out)
+	}
+
 	pub fn verif_stall_counts(&self) -> (usize, usize) {
 		(self.core.inner.immutable_count(), self.core.inner.l0_file_count())
 	}
